@@ -534,14 +534,19 @@ class Grader:
         def key(st):
             return repr(sorted((str(k), repr(v)) for k, v in st.items() if k != '#vn')) + repr(sorted((st.get('#vn') or {}).items(), key=repr))
 
+        import time as _time
         while work and rounds < 400 * n + 200:
             rounds += 1
+            if getattr(self, 'deadline', None) is not None and _time.time() > self.deadline:
+                raise TimeoutError('dataflow budget exceeded')
             b = work.pop(0)
             states = IN[b][done[b]:]
             done[b] = len(IN[b])
             bl = fn.blocks[b]
             for st0 in states:
                 st = dict(st0)
+                if getattr(self, 'deadline', None) is not None and _time.time() > self.deadline:
+                    raise TimeoutError('dataflow budget exceeded')
                 for i, s in enumerate(bl['stmts']):
                     if s['k'] == 'assign':
                         lhs = s['lhs']
@@ -559,6 +564,8 @@ class Grader:
                                     cv = None
                             elif rv['k'] == 'use' and rv['op']['k'] in ('copy', 'move') and not rv['op']['pl']['p']:
                                 cv = cs.get(rv['op']['pl']['l'])
+                            if cv is None and isinstance(v, str) and v.isdigit():
+                                cv = int(v)       # a folded constant (ExprFlow): loop counters of constant-trip loops
                             if cv is not None:
                                 cs[lhs['l']] = cv
                             else:
@@ -592,6 +599,8 @@ class Grader:
                             st_out[pi] = tree
                     if getattr(self, 'refine_edge', None) is not None:
                         st_out = self.refine_edge(b, s2, st_out)
+                        if st_out is None:
+                            continue          # the edge contradicts a constant the path has established
                     k_ = key(st_out)
                     if any(key(x) == k_ for x in IN[s2]):
                         continue
@@ -599,6 +608,9 @@ class Grader:
                         IN[s2].append(dict(st_out))
                     else:
                         # join into the last alternative
+                        self.joined = True
+                        if getattr(self, 'abort_on_join', False):
+                            raise TimeoutError('too many paths')
                         old = IN[s2][-1]
                         new = dict(old)
                         for kk in set(old) | set(st_out):
@@ -1165,7 +1177,23 @@ class ExprFlow(Grader):
                 return '(%s as %s)' % (self.show(v), rv.get('ty'))
             return v
         if k == 'binop':
-            return '%s(%s, %s)' % (rv['op'].replace('WithOverflow', ''), self.show(self.operand(st, rv['a'])), self.show(self.operand(st, rv['b'])))
+            a_, b_ = self.show(self.operand(st, rv['a'])), self.show(self.operand(st, rv['b']))
+            op_ = rv['op']
+            if a_.isdigit() and b_.isdigit() and getattr(self, 'fold_consts', False):
+                x, y = int(a_), int(b_)
+                base = op_.replace('WithOverflow', '')
+                val = {'Add': x + y, 'Sub': x - y, 'Mul': x * y}.get(base)
+                if val is not None and 0 <= val < 1 << 64:
+                    return [str(val), '0'] if op_.endswith('WithOverflow') else str(val)
+                cmp_ = {'Lt': x < y, 'Le': x <= y, 'Gt': x > y, 'Ge': x >= y, 'Eq': x == y, 'Ne': x != y}.get(base)
+                if cmp_ is not None:
+                    return '1' if cmp_ else '0'
+            return '%s(%s, %s)' % (op_.replace('WithOverflow', ''), a_, b_)
+        if k == 'unop' and 'op' in rv and isinstance(rv.get('a') or rv.get('operand') or rv.get('arg'), dict):
+            v_ = self.show(self.operand(st, rv.get('a') or rv.get('operand') or rv.get('arg')))
+            if rv['op'] == 'Not' and v_ in ('0', '1') and getattr(self, 'fold_consts', False):
+                return '1' if v_ == '0' else '0'
+            return '%s(%s)' % (rv['op'], v_)
         return '?'
 
     # a mutable borrow of a whole local keeps its identity, so that slice views and in-place copies can be modelled
